@@ -136,14 +136,36 @@ def c_number(tok, typ, tab):
 def observe_outs(run, kconf, names, info, tab):
     import kconfgen.core as kg
 
-    _, htext = kc.header_values(kconf, run.scratch)
-    hdr = dict(re.findall(r"^#define CONFIG_(\w+) (.*)$", htext, re.M))
+    # a generator that raises on an accepted tree emitted nothing well-formed: every numeric option of that
+    # format is recorded as malformed (BAD_N) so that the property predicate, not the harness, rejects it
+    class _AllBad(dict):
+        def __contains__(self, k):
+            return True
+
+        def __getitem__(self, k):
+            return "<generator raised>"
+
+        def get(self, k, d=None):
+            return "<generator raised>"
+
+    try:
+        _, htext = kc.header_values(kconf, run.scratch)
+        hdr = dict(re.findall(r"^#define CONFIG_(\w+) (.*)$", htext, re.M))
+    except Exception:
+        hdr = _AllBad()
     p = os.path.join(run.scratch, "cm_%d" % os.getpid())
-    kg.write_cmake(kconf, p)
-    with open(p) as f:
-        cm = dict(re.findall(r'^set\(CONFIG_(\w+) "(.*)"\)$', f.read(), re.M))
-    os.unlink(p)
-    js = kg.get_json_values(kconf)
+    try:
+        kg.write_cmake(kconf, p)
+        with open(p) as f:
+            cm = dict(re.findall(r'^set\(CONFIG_(\w+) "(.*)"\)$', f.read(), re.M))
+    except Exception:
+        cm = _AllBad()
+    if os.path.exists(p):
+        os.unlink(p)
+    try:
+        js = kg.get_json_values(kconf)
+    except Exception:
+        js = _AllBad()
     out = []
     for n in names:
         typ = info[n]["type"]
